@@ -285,7 +285,7 @@ func c01ParseVal(t string) c01Val {
 	case 'f':
 		var bits uint64
 		fmt.Sscanf(rest, "%x", &bits)
-		return c01Val{k: 'f', f: float64frombits(bits)}
+		return c01Val{k: 'f', f: c01Float64frombits(bits)}
 	case 's':
 		return c01Val{k: 's', s: string(unhx(rest))}
 	case 't':
